@@ -298,12 +298,15 @@ def handleSrvMsg (st : SrvSt) (c : Nat) (m : Msg) (ops : List Op) (resps : List 
     let st := { st with srv := srv', rs := { st.rs with model := srv'.rib, lastHooks := out.ribOuts.flatMap (fun (o : Rib.Out) => o.hooks) } }
     let (mc, mr) := termTok out.term
     -- C09 monitor: a protocol violation ends the RPC with the status the specification assigns
-    -- (the table is C09.c09_codes; operations and well-formed announcements are not judged here)
+    -- (the table is C09.c09_codes; operations and announcements that the specification accepts are not judged here)
     let violation := match m with
       | .multi | .empty => true
       | .params _ _ _ => out.term.isSome
       | .elec _ => out.term.isSome
-      | .ops _ => false
+      -- operations that the specification answers by ending the RPC (no election id on a
+      -- SINGLE_PRIMARY session, an election id on an ALL_PRIMARY one, operations before the
+      -- session parameters were accepted, …): the table is C09.c09_codes
+      | .ops _ => out.term.isSome
     let st := if violation && (mc ≠ code || mr ≠ reason)
       then st.monfail "c09" s!"session {c}: the specification assigns status code {mc} reason {mr} to this violation, the server answered code {code} reason {reason}" else st
     if out.resps ≠ resps then
